@@ -383,6 +383,9 @@ def order_stats(which, *, p=None, c=None, n=None, r=None):
         def _run_brentq(c, r, p):
             # find [a, b] interval by brute force:
             a = r
+            if _func(a, 1 - c, r - 1, 1 - p) >= 0:
+                # smallest legal sample size (n = r) is already enough
+                return a
             b = 2 * a
             loops = 0
             while _func(b, 1 - c, r - 1, 1 - p) < 0 and loops < 30:
